@@ -251,16 +251,14 @@ func evalPureCase(w *engine.World, c PureCase) (observed, string, string) {
 	o := callCalculatePrice(w.App.FeedsKeeper, ctx, feed, infos, pq)
 	a, v, med := expectedOf(entries, c.Now, c.Interval, q, bonded)
 	fp, detail := judge(a, v, med, o)
-	if fp != "" && !strings.HasPrefix(fp, "price-error") {
-		fp += explain(o, pureAlts(entries, c.Now, c.Interval, q, bonded))
-	}
+	fp = refine(fp, o, pureAlts(a, entries, c.Now, c.Interval, q, bonded))
 	return o, fp, detail
 }
 
-func pureAlts(entries []Entry, now, interval int64, q *big.Rat, bonded *big.Int) []altReading {
+func pureAlts(a agg, entries []Entry, now, interval int64, q *big.Rat, bonded *big.Int) []altReading {
 	return []altReading{
-		{Name: "stale-prices-counted", Entries: entries, Now: now, Interval: 1 << 40, Q: q, Bonded: bonded},
-		{Name: "boundary-price-dropped", Entries: entries, Now: now, Interval: interval - 1, Q: q, Bonded: bonded},
+		{Name: "freshness:boundary-price-dropped", Applicable: a.boundarySeen, Entries: entries, Now: now, Interval: interval - 1, Q: q, Bonded: bonded},
+		{Name: "freshness:stale-price-counted", Applicable: a.staleSeen, Entries: entries, Now: now, Interval: 1 << 40, Q: q, Bonded: bonded},
 	}
 }
 
@@ -439,9 +437,7 @@ func runPure(r *engine.Run, tally *engine.Tally, quick bool, deadline time.Time)
 					if fp == "" {
 						continue
 					}
-					if !strings.HasPrefix(fp, "price-error") {
-						fp += explain(o, pureAlts(s.entries, now, cfg.Interval, qRat[qi], bondedBig))
-					}
+					fp = refine(fp, o, pureAlts(a, s.entries, now, cfg.Interval, qRat[qi], bondedBig))
 					q := cfg.Quorums[qi]
 					c.violate(idx, fp, func() (any, []string, string) {
 						return pureCase(cfg, now, s.entries, q, bondedBig), []string{"pure"}, detail
